@@ -84,6 +84,25 @@ pub fn step(pair: &mut Pair, m: &RefMsg) -> StepOut {
             }
         }
     }
+    // "reset or goodbye return it to the blank unconfigured condition": after a goodbye, or a reset that was carried out
+    // (FinishReset acknowledged), the sign is indistinguishable from a newly made one — equal and hashing alike
+    let was_reset = match m {
+        RefMsg::Goodbye(a) => *a == model.addr,
+        RefMsg::Request(a, o) => *a == model.addr && *o == O_FINISH_RESET && matches!(got, Some(RefMsg::Ack(_, _))),
+        _ => false,
+    };
+    if was_reset {
+        use std::hash::{Hash, Hasher};
+        let fresh = VirtualSign::new(Address(model.addr), if model.auto { PageFlipStyle::Automatic } else { PageFlipStyle::Manual });
+        let h = |s: &VirtualSign<'_>| {
+            let mut x = std::collections::hash_map::DefaultHasher::new();
+            s.hash(&mut x);
+            x.finish()
+        };
+        if *sign != fresh || h(sign) != h(&fresh) {
+            diffs.push(("not_blank_after_reset", format!("after {} the sign differs from a newly made sign with the same address and flip style (it is {:?})", m.show(), sign)));
+        }
+    }
     // model-free invariants from the statement: stored pages are complete pages of the configured size
     for (i, p) in pages.iter().enumerate() {
         if p.as_bytes().len() != padded_len(p.width(), p.height()) {
